@@ -82,8 +82,10 @@ func (rm *ResourceManagement) OnRequestDrop(APIStream publicTypes.APIStreamI) {
 	}
 }
 
+// OnResponseFinish ends the transaction: every quota the request touched is released, whether or not the
+// quota's own system flow (selected by the quota's filter) matched the response.
 func (rm *ResourceManagement) OnResponseFinish(APIStream publicTypes.APIStreamI) {
-	_, _ = rm.reqIDToQuota.Pop(APIStream.GetID())
+	rm.OnRequestDrop(APIStream)
 }
 
 func (rm *ResourceManagement) GetQuota(
